@@ -707,7 +707,9 @@ class SoftwareSwitchBase (object):
         # would look the packet up again forever.
         self.log.warn("Dropping packet sent to OFPP_TABLE by a flow entry")
         return
-      self.rx_packet(packet, in_port)
+      # Look up a copy: a table miss buffers the packet it is given, and the
+      # actions that follow this output go on modifying ours in place
+      self.rx_packet(ethernet(packet.pack()), in_port)
     else:
       self.log.warn("Unsupported virtual output port: %d", out_port)
 
